@@ -4,13 +4,13 @@ package main
 // inlining of uncontracted repo functions and closures, abstraction of everything else.
 
 import (
-	"sync"
 	"fmt"
 	"go/constant"
 	"go/types"
 	"os"
 	"sort"
 	"strings"
+	"sync"
 
 	"golang.org/x/tools/go/ssa"
 )
@@ -135,8 +135,18 @@ func (ex *Exec) callCommon(fr *frame, c *ssa.CallCommon, site ssa.Instruction, g
 		return ex.applyContract(fr, fc, callee, callee.Signature, args, nil, g, s, site, key)
 	}
 	name := callee.String()
+	ti := -1
 	if ex.traceOn {
 		ex.trace = append(ex.trace, Event{Kind: "call", Guard: g, Instr: site, Callee: name, Args: args, St: s, Depth: len(ex.stack) - 1})
+		ti = len(ex.trace) - 1
+	}
+	// an inlined callee's results belong to the call event too (error propagation looks at them)
+	inlined := func(og string, ov Val) (string, Val) {
+		if ti >= 0 {
+			vv := ov
+			ex.trace[ti].Res = &vv
+		}
+		return og, ov
 	}
 	if r, ok := ex.modelExternal(name, callee, args, g, s); ok {
 		return g, r
@@ -155,10 +165,10 @@ func (ex *Exec) callCommon(fr *frame, c *ssa.CallCommon, site ssa.Instruction, g
 		if len(ex.stack) > ex.maxInline {
 			ex.failf("inlining depth exceeded at %s", name)
 		}
-		return ex.inline(callee, args, bindings, g, s)
+		return inlined(ex.inline(callee, args, bindings, g, s))
 	}
 	if len(callee.Blocks) > 0 && bindings != nil {
-		return ex.inline(callee, args, bindings, g, s)
+		return inlined(ex.inline(callee, args, bindings, g, s))
 	}
 	setRes := func(v Val) Val {
 		if ex.traceOn && len(ex.trace) > 0 && ex.trace[len(ex.trace)-1].Instr == site {
